@@ -18,7 +18,7 @@ HOOKS = {
 
 ENGINES = [
     {'name': 'vf', 'path': 'vf/harness.py',
-     'serves_properties': ['C01', 'C02', 'C03', 'C04', 'C05', 'C06', 'C10', 'C07', 'C08', 'C09', 'C13', 'C15', 'C16', 'C17', 'C20'],
+     'serves_properties': ['C01', 'C02', 'C03', 'C04', 'C05', 'C06', 'C10', 'C07', 'C08', 'C09', 'C13', 'C15', 'C16', 'C17', 'C19', 'C20'],
      'kind_free_text': ('runtime monitoring driver: 16 worker processes import the real '
                         'openhtf from /repo, run enumerated + seeded cases, monitors '
                         'decide each property from observed events; witnesses are '
@@ -224,5 +224,18 @@ CHECKS = {
                  'OutputToJSON inline / not inline / allow_nan} is run on one record: strict JSON, decoded structure equals the '
                  'renderer, attachments round-trip through base64, as_base_types() stays base types'),
         'note': 'trusts vf/render.py (written from the documented conversion rules); tuples and lists are identified',
+    },
+    'C19': {
+        'level': 'exploration',
+        'technique': 'runtime history monitoring: uniquely numbered messages emitted through run, foreign and framework loggers are looked up in each run\'s log_records (exactly once, per-thread order, fields, redaction, no foreign ids); sys.monitoring pause points in logs.py while another run ends/starts/logs; yield-injection stress; handler counts',
+        'text': ('capture layer: 8 uid shapes x 11 logger kinds (own / child / phase / plug loggers, framework loggers, '
+                 'another run\'s loggers, look-alike and prefix-sharing names) and 14 message/argument shapes x 3 MAC spellings '
+                 '(MAC in msg, in args, split across args, in non-str and mapping args, twice); whole Test runs through '
+                 'test.logger, plug logger, state logger and a framework logger for every shape; schedules: run B\'s logging '
+                 'thread paused at every reached line of logs.py (2 hits) while run A ends / a run starts / run A logs / run A '
+                 'ends with a third run active; stress: two runs x 2-3 logging threads under yield injection while short-lived '
+                 'runs churn; 1-20 consecutive runs counting RecordHandlers and logging after the end'),
+        'note': ('MAC = six colon-separated hex octets in either case; across threads any interleaving is accepted, per '
+                 'thread the emission order must hold; preemption bound 1 over logs.py lines'),
     },
 }
